@@ -31,7 +31,7 @@ LEVEL = "proof"
 MANIFEST_ENTRY = {
     "category": "proof",
     "text": "Lean 4 theorems over three separately written executable models of the centre-of-mass code (torch batched calculate_origin, numpy vectorised and looped _set_intensities_com): for every carrier (incl. binary64) the batched result is independent of the batch size and the three paths return the same values; over R each equals the intensity-weighted mean row/column index of the (masked) pattern and is invariant under multiplying every pattern by its own non-zero factor (com_scale_invariant); a constant fit of constant origins and a PCA plane fit (any null vector of the scatter form; unconditional on every scan raster of at least 2x2 positions, plane_exact_raster) or least-squares fit (any minimiser; instantiated for the modelled _plane/_parabola/_bezier_two families) of origins lying exactly on a plane/surface return that surface; shift_origin_to with integer origin is exactly the circular roll (bilinear weights (1,0,0,0), periodic index). Tied to the code on every run by bit-exact comparison on integer-valued patterns for every batch size, masks, non-square shapes; the two real classes (direct-ptychography origin model, ptychography dataset model incl. preprocess()) are additionally compared with each other on the same datasets (<= 1 float32 ulp).",
-    "note": "Proved: batch/path independence, COM = weighted mean, constant/plane exactness, integer shift = roll, all on the model. Measured only: torch.linalg.eigh and scipy curve_fit reach the fitted surface to float tolerance (PCA 5e-4 rel. float32, curve_fit 1e-6), grid_sample un-normalisation in float32 (1e-5*max). The curve_fit variants plane/parabola/bezier_two are modelled (surfaceF), covered in Lean by lsq_minimiser_exact / lsq_variants_exact (any least-squares minimiser reproduces data lying on the family) and exercised on exact surfaces with mask=None, all-True and partial masks. Patterns with zero total (masked) intensity are outside the property (positive intensities).",
+    "note": "Proved: batch/path independence, COM = weighted mean, constant/plane exactness, integer shift = roll, all on the model. Also proved: the flat (N,2) and the (Rx,Ry,2) grid input forms of the origin setters store the same origins on every scan shape (origin_forms_agree; counterexample for the too-weak layout test ndim==3 and shape[0]==2), the parabola fit is exact on every raster >= 3x3 (rank condition quad_unique; undetermined on 2x2: counterexample), shift_origin_to is the roll for negative / beyond-the-edge integer origins and non-corner targets, the centre of mass is translation covariant (com_translation_covariant), and sub-pixel shifts are NOT intensity conserving (zero padding; exact-carrier counterexample). Measured only: torch.linalg.eigh and scipy curve_fit reach the fitted surface to float tolerance (PCA 5e-4 rel. float32, curve_fit 1e-6), grid_sample un-normalisation in float32 (1e-5*max). The curve_fit variants plane/parabola/bezier_two are modelled (surfaceF), covered in Lean by lsq_minimiser_exact / lsq_variants_exact (any least-squares minimiser reproduces data lying on the family) and exercised on exact surfaces with mask=None, all-True and partial masks. Patterns with zero total (masked) intensity are outside the property (positive intensities).",
     "technique": "Lean 4 proof (list induction, field algebra over R, floor/emod arithmetic) + exact model-vs-implementation correspondence",
 }
 RULE = ("com stream: one case = one 4-D dataset (scan sr x sc, detector h x w, integer intensities, optional mask) x one code path x one batch size; "
@@ -718,6 +718,14 @@ def forms_case(ctx, drv, fm):
             ctx.pred_fail("origin-setter-rejects-form", f"origin setter raised {type(e).__name__} for origins given as {form} on a {sr}x{sc} scan", fcase, observed=str(e)[:200], required="accepted like the flat (N, 2) form")
             continue
         sm, sf = om.origin_measured.detach().cpu().numpy(), om.origin_fitted.detach().cpu().numpy()
+        # model of the setter (Model/Origin.lean `storeOrigins`: view((-1, 2)).expand((num_dps, 2))) on the integer origins
+        mform = "pair" if form.startswith("pair") else "grid" if form.startswith("grid") else "flat"
+        mreq = {"op": "store_origins", "n": n, "sc": sc, "form": mform, "data": [int(v) for pr in (fm["origins"][:1] if mform == "pair" else fm["origins"]) for v in pr]}
+        mo = drv.ask(mreq)
+        if "ok" not in mo:
+            raise HarnessError(f"driver error {mo}")
+        if mo["ok"] != [[int(a), int(b)] for a, b in sf.reshape(-1, 2).tolist()]:
+            ctx.disagree("origin-setter", fcase, mo["ok"], sf.reshape(-1, 2).tolist(), note=f"storeOrigins vs origin_fitted stored from the {form} form")
         if sm.shape != (n, 2) or sf.shape != (n, 2) or not np.array_equal(sm, meas) or not np.array_equal(sf, orig):
             i = int(np.argmax(np.abs(sf.reshape(-1, 2)[:n] - orig).max(1))) if sf.size == orig.size else 0
             ctx.pred_fail("origin-setter-form-scrambles", f"origins handed to the origin_measured / origin_fitted setters as {form} on a {sr}x{sc} scan are not stored pattern by pattern as (row, col)", fcase,
